@@ -1,6 +1,6 @@
 ----------------------------- MODULE Trace_Growth -----------------------------
 (* C19, code -> specification: one line per measurement series
-     {"cls":..,"shape":..,"points":[{"size":..,"declared":..,"steps":..,"depth":..,"out":..},..]}            *)
+     {"cls":..,"shape":..,"history":bool,"points":[{"size":..,"declared":..,"steps":..,"depth":..,"out":..},..]}            *)
 EXTENDS Growth, Json, IOUtils, TLCExt
 T == ndJsonDeserialize(IOEnv.TRACE_FILE)
 VARIABLE l
@@ -11,6 +11,8 @@ Check(e) == LET p == e.points c0 == p[1].steps IN
   /\ Report(~\E i \in 2..(Len(p) - 1) : ~PointOk(p[i - 1], p[i], c0) /\ ~PointOk(p[i], p[i + 1], c0), <<"BAD", "work-grows-faster-than-linear", l>>)
   /\ Report(\A i \in 1..Len(p) : Bounded(p[i]),
             <<"BAD", IF Len(p) > 1 /\ p[1].size = p[Len(p)].size THEN "work-follows-declared-length" ELSE "work-exceeds-per-byte-bound", l>>)
+  \* history series: the same input after more and more earlier parses (declared = their number) costs what it cost at first
+  /\ Report(~e.history \/ \A i \in 1..Len(p) : HistoryOk(p[1], p[i]), <<"BAD", "work-depends-on-earlier-parses", l>>)
   /\ Report(\A i \in 1..Len(p) : p[i].depth <= DepthBound, <<"BAD", "recursion-depth-grows", l>>)
   /\ Report(\A i \in 1..Len(p) : p[i].out # "RecursionError" /\ p[i].out # "MemoryError" /\ p[i].out # "timeout", <<"BAD", "did-not-terminate-normally", l>>)
 Init == l = 1 /\ pos = 0 /\ work = 0
